@@ -6,8 +6,6 @@ every nil assignment N.
 -/
 namespace ShootVerif.Mapper
 
-def nonNil (N : List String) (p : List String) : Bool := !N.contains (joinPath p)
-
 theorem derefOk_eq (pp : List (List String)) (N : List String) (p : List String) :
     derefOk pp N p = (hops pp p).all (nonNil N) := rfl
 
@@ -86,15 +84,13 @@ theorem execStmt_ideal (rs ws : SideSem) (A : List (List String)) (N : List Stri
         simp only [List.all_eq_true, List.contains_iff_mem] at halloc ⊢
         exact fun h hh => hA h (halloc h hh)
       rw [hg, hset]
-      have hsame : ((hops rs.ptrs rl.path).all fun h => !N.contains (joinPath h)) = (hops rs.ptrs rl.path).all (nonNil N) := rfl
-      rw [hsame]
       cases hn : (hops rs.ptrs rl.path).all (nonNil N) with
-      | false => simp
+      | false => simp only [Bool.false_eq_true, ↓reduceIte]
       | true =>
         have hd : derefOk rs.ptrs N rl.path = true := by rw [derefOk_eq]; exact hn
         simp only [hd, hf, stratValue_eq, Bool.not_true, Bool.false_eq_true, ↓reduceIte]
         cases idealValue c.strat (readLeaf N rl) with
-        | none => rfl
+        | none => simp only
         | some v => simp only [hwr, ↓reduceIte]
 
 theorem idealStmt_alloc (rs ws : SideSem) (N : List String) (w : WSt) (c : Claim) :
